@@ -116,9 +116,12 @@ class CacheShadow(object):
                     sh.problem(name, "value_differs", "memoised _convolve_two_children differs from recomputation by %.3g" % monitors.max_diff(res, want))
                 return res
         elif name in ("_get_cached_semi_proposal_dist", "_get_cached_full_proposal_dist"):
-            def shadow(data_point, kernel, parent_particle, outlier_proposal_prob, alpha):
+            # generic in the argument list (a refactor may change the key): (data_point, kernel, parent_particle, ...)
+            def shadow(*args):
+                parent_particle = next((a for a in args if hasattr(a, "_built_tree")), None)
+                kernel = next((a for a in args if hasattr(a, "tree_dist") and hasattr(a, "get_proposal_distribution")), None)
                 saved = list(parent_particle._built_tree) if parent_particle is not None else None
-                res = memo(data_point, kernel, parent_particle, outlier_proposal_prob, alpha)
+                res = memo(*args)
                 if not sh.enabled:
                     return res
                 sh.calls[name] += 1
@@ -130,7 +133,7 @@ class CacheShadow(object):
                         parent_particle._built_tree.extend(saved)
                         if not saved:
                             parent_particle._built_tree.append(None)
-                    want = orig(data_point, kernel, parent_particle, outlier_proposal_prob, alpha)
+                    want = orig(*args)
                     a, ea = proposal_signature(res)
                     b, eb = proposal_signature(want)
                 finally:
@@ -139,13 +142,14 @@ class CacheShadow(object):
                         parent_particle._built_tree.clear()
                         parent_particle._built_tree.extend(after)
                 sh.sigs.add((name, len(a), parent_particle is None))
+                alpha_now = kernel.tree_dist.prior.alpha if kernel is not None else None
                 if set(a) != set(b):
-                    sh.problem(name, "support_differs", "memoised proposal has support of %d trees, recomputation %d (alpha=%r)" % (len(a), len(b), alpha))
+                    sh.problem(name, "support_differs", "memoised proposal has support of %d trees, recomputation %d (alpha=%r)" % (len(a), len(b), alpha_now))
                 else:
                     for k in a:
                         if not (abs(a[k] - b[k]) <= 1e-9 * max(1.0, abs(b[k]))):
                             sh.problem(name, "log_p_differs", "memoised proposal gives log_q %.12g for %s, recomputation under the current alpha=%r gives %.12g" % (
-                                a[k], models.canon_str(k), kernel.tree_dist.prior.alpha, b[k]))
+                                a[k], models.canon_str(k), alpha_now, b[k]))
                             break
                     if ea is not None and eb is not None:
                         if ea[2] != eb[2] or len(ea[0]) != len(eb[0]) or sorted(map(repr, ea[1])) != sorted(map(repr, eb[1])):
@@ -157,17 +161,21 @@ class CacheShadow(object):
                                 sh.problem(name, "existing_dist_differs", "memoised semi-adapted proposal's existing-clone probabilities differ")
                 return res
         else:
-            def shadow(parent_particle, data_point, children, tree_dist, perm_dist):
-                res = memo(parent_particle, data_point, children, tree_dist, perm_dist)
+            def shadow(*args):
+                res = memo(*args)
                 if not sh.enabled:
                     return res
                 sh.calls[name] += 1
                 sh.enabled = False
                 try:
-                    want = orig(parent_particle, data_point, children, tree_dist, perm_dist)
+                    want = orig(*args)
                     ca, cb = bridge.canon_tree(res.tree), bridge.canon_tree(want.tree)
                 finally:
                     sh.enabled = True
+                td = next((a for a in args if hasattr(a, "prior")), None)
+                if td is None:
+                    kern = next((a for a in args if hasattr(a, "tree_dist")), None)
+                    td = kern.tree_dist if kern is not None else None
                 if ca != cb:
                     sh.problem(name, "tree_differs", "memoised new-clone tree %s, recomputation %s" % (models.canon_str(ca), models.canon_str(cb)))
                 else:
@@ -175,7 +183,7 @@ class CacheShadow(object):
                         x, y = float(getattr(res, attr)), float(getattr(want, attr))
                         if not (abs(x - y) <= 1e-9 * max(1.0, abs(y))):
                             sh.problem(name, attr + "_differs", "memoised new-clone tree has %s=%.12g, recomputation under alpha=%r gives %.12g" % (
-                                attr, x, tree_dist.prior.alpha, y))
+                                attr, x, td.prior.alpha if td is not None else None, y))
                             break
                 return res
         return shadow
